@@ -176,46 +176,59 @@ def cli_job(item):
         try: ex.call('main', [])
         except ProcessExit as e: code = e.code
         ex.u_code = code
-        cfg = ex.u_cfg; evs = ex.u_events
+        evs = ex.u_events
         out = [c for e in evs if e[0] == 'stdout' for c in e[1]]; errs = [c for e in evs if e[0] == 'stderr' for c in e[1]]
         reads = [e[1] for e in evs if e[0] in ('open', 'read')]
         ex.u_out = out
-        # ---- what the property says, over the library's own answers
-        def fail(why):
-            ex.u_want = ('fail', why)
-            if code == 0: return f'{why}: exit status 0'
-            if out: return f'{why}: something is printed to stdout'
-            if not errs: return f'{why}: nothing is printed to stderr'
-            return None
-        if cfg.get('expr_src') == 'file' and (cfg.get('open_fails:E') or cfg.get('read_fails:E')): return fail('expression file unreadable')
-        c = ex.call('compile', [Ptr(Cell(StrV(list(ex.u_expr))))])
-        if c.variant != 'Ok': return fail('expression does not compile')
-        if cfg.get('ast'):
-            want = MM._restore(ex, MM.fmt_debug(ex, ex.call('Expression::as_ast', [Ptr(Cell(c.fields[0].v))]), True)) + ['\n']          # {:#?}
+        def judge(cfg):
+            # ---- what the property says, over the library's own answers
+            def fail(why):
+                ex.u_want = ('fail', why)
+                if code == 0: return f'{why}: exit status 0'
+                if out: return f'{why}: something is printed to stdout'
+                if not errs: return f'{why}: nothing is printed to stderr'
+                return None
+            if cfg.get('expr_src') == 'file' and (cfg.get('open_fails:E') or cfg.get('read_fails:E')): return fail('expression file unreadable')
+            c = ex.call('compile', [Ptr(Cell(StrV(list(ex.u_expr))))])
+            if c.variant != 'Ok': return fail('expression does not compile')
+            if cfg.get('ast'):
+                want = MM._restore(ex, MM.fmt_debug(ex, ex.call('Expression::as_ast', [Ptr(Cell(c.fields[0].v))]), True)) + ['\n']          # {:#?}
+                ex.u_want = ('ok', want)
+                if any(r in ('J', 'stdin') for r in reads): return '--ast reads the input'
+                if code != 0: return f'--ast: exit status {code}'
+                if errs: return '--ast: something is printed to stderr'
+                if not same_chars(out, want): return '--ast: stdout is not the debug rendering of the parse tree followed by a newline'
+                pr = [e for e in evs if e[0] == 'stdout']
+                if len(pr) != 1 or len(pr[0]) < 3 or pr[0][2] != [('debug', True)]: return '--ast: the tree is not printed with the pretty debug format {:#?}'
+                return None
+            src = 'J' if cfg.get('json_src') == 'file' else 'stdin'
+            if (src == 'J' and cfg.get('open_fails:J')) or cfg.get('read_fails:' + src): return fail('input unreadable')
+            v = ex.call('Variable::from_json', [Ptr(Cell(StrV(list(ex.u_json))))])
+            if v.variant != 'Ok': return fail('input is not JSON')
+            r = ex.call('Expression::search', [Ptr(Cell(c.fields[0].v)), Ptr(Cell(v.fields[0].v), 'rc')])
+            if r.variant != 'Ok': return fail('search fails')
+            res = MM.deref_all(r.fields[0].v)
+            if cfg.get('unquoted') and res.variant == 'String': want = list(res.fields[0].v.chars) + ['\n']
+            else: want = tree_pretty(ex, MM._ser_value(ex, res, MM.JsonSerV('text')), 0) + ['\n']
             ex.u_want = ('ok', want)
-            if any(r in ('J', 'stdin') for r in reads): return '--ast reads the input'
-            if code != 0: return f'--ast: exit status {code}'
-            if errs: return '--ast: something is printed to stderr'
-            if not same_chars(out, want): return '--ast: stdout is not the debug rendering of the parse tree followed by a newline'
-            pr = [e for e in evs if e[0] == 'stdout']
-            if len(pr) != 1 or len(pr[0]) < 3 or pr[0][2] != [('debug', True)]: return '--ast: the tree is not printed with the pretty debug format {:#?}'
+            if code != 0: return f'success: exit status {code}'
+            if errs: return 'success: something is printed to stderr'
+            if not same_chars(out, want): return 'success: stdout is not the ' + ('raw string' if cfg.get('unquoted') and res.variant == 'String' else 'pretty-printed JSON of the search result') + ' followed by a newline'
             return None
-        src = 'J' if cfg.get('json_src') == 'file' else 'stdin'
-        if (src == 'J' and cfg.get('open_fails:J')) or cfg.get('read_fails:' + src): return fail('input unreadable')
-        v = ex.call('Variable::from_json', [Ptr(Cell(StrV(list(ex.u_json))))])
-        if v.variant != 'Ok': return fail('input is not JSON')
-        r = ex.call('Expression::search', [Ptr(Cell(c.fields[0].v)), Ptr(Cell(v.fields[0].v), 'rc')])
-        if r.variant != 'Ok': return fail('search fails')
-        res = MM.deref_all(r.fields[0].v)
-        if cfg.get('unquoted') and res.variant == 'String': want = list(res.fields[0].v.chars) + ['\n']
-        else: want = tree_pretty(ex, MM._ser_value(ex, res, MM.JsonSerV('text')), 0) + ['\n']
-        ex.u_want = ('ok', want)
-        if code != 0: return f'success: exit status {code}'
-        if errs: return 'success: something is printed to stderr'
-        if not same_chars(out, want): return 'success: stdout is not the ' + ('raw string' if cfg.get('unquoted') and res.variant == 'String' else 'pretty-printed JSON of the search result') + ' followed by a newline'
+        # the path stands for every configuration that agrees with it on the dimensions the program consulted: a flag or source the program never asked
+        # about may have either value, and the property must hold for each of them (an --ast that is looked at too late is found this way)
+        import itertools
+        free = [(k, vals) for k, vals in (('ast', [False, True]), ('unquoted', [False, True]), ('json_src', ['stdin', 'file'])) if k not in ex.u_cfg]
+        for combo in itertools.product(*[v for _, v in free]):
+            cfgc = dict(ex.u_cfg, **{k: x for (k, _), x in zip(free, combo)})
+            verdict = judge(cfgc)
+            if verdict is not None:
+                ex.u_cfg_full = cfgc
+                return verdict
+        ex.u_cfg_full = dict(ex.u_cfg)
         return None
     def request(ex):
-        cfg = ex.u_cfg; m = None
+        cfg = getattr(ex, 'u_cfg_full', ex.u_cfg); m = None
         if not (isinstance(expr, str) and isinstance(jtxt, str)):
             sat, m = eng.check(ex.pc)
             if not sat: m = None
